@@ -38,3 +38,31 @@ def unbracket : List Char → Option (List Char)
   | _ => none
 
 end Qrlew.Quote
+
+namespace Qrlew.Quote
+
+/-- the character a backslash escape stands for in the dialects that have them (`tokenize_quoted_string`, unescape mode) -/
+def escChar (c : Char) : Char :=
+  if c == '0' then Char.ofNat 0 else if c == 'a' then Char.ofNat 7 else if c == 'b' then Char.ofNat 8
+  else if c == 'f' then Char.ofNat 12 else if c == 'n' then '\n' else if c == 'r' then '\r' else if c == 't' then '\t'
+  else if c == 'Z' then Char.ofNat 26 else c
+
+/-- the tokenizer after an opening quote `q`: value read and the text left after the closing quote;
+`bs`: the dialect treats backslash as an escape inside string literals (MySQL, BigQuery) -/
+def readQ (q : Char) (bs : Bool) : List Char → Option (List Char × List Char)
+  | [] => none
+  | [c] => if c == q then some ([], []) else none
+  | c :: c' :: rest' =>
+    if c == q then (if c' == q then (readQ q bs rest').map (fun (v, r) => (q :: v, r)) else some ([], c' :: rest'))
+    else if bs && c == '\\' then (readQ q bs rest').map (fun (v, r) => (escChar c' :: v, r))
+    else (readQ q bs (c' :: rest')).map (fun (v, r) => (c :: v, r))
+
+/-- a whole token: opening quote, body, closing quote, nothing after -/
+def readBack (q : Char) (bs : Bool) : List Char → Option (List Char)
+  | [] => none
+  | c :: rest => if c == q then (match readQ q bs rest with | some (v, []) => some v | _ => none) else none
+
+/-- what the renderer writes for a value: quote, escaped body, quote -/
+def write (q : Char) (s : List Char) : List Char := q :: esc q (Char.ofNat 0) s ++ [q]
+
+end Qrlew.Quote
